@@ -70,6 +70,39 @@ CLAIMED = {
          "A clean run is evidence for the calls observed, not memory safety.",
          "Trusted: the sanitizers; Miri runs with the System allocator (documented CRITICAL-2 layout mismatch is outside the property).",
          "DESIGN.md §C17"),
+ "C01": ("exploration", "runtime monitor: exact big-integer phase of every fresh ciphertext vs hard error bound; library decryption vs exact phase",
+         "Fresh LWE / GLWE ciphertexts (secret-key, zero, public-key, seed-compressed) are produced on four backends over a grid of (N, rank, radix, k not a multiple of the radix, seven secret "
+         "distributions, message classes) plus random cases; the error centre(phase - message) is extracted exactly with the clear secret and compared with the property's hard bound; the library's "
+         "decryption is compared with the exact phase (one unit, also into a different radix / precision). Held on the executions observed.",
+         "Trusted: clear secrets through the verif-hooks accessor; pk bound uses the maximal 1-norm of the ephemeral secret.", "DESIGN.md §C01"),
+ "C02": ("exploration", "runtime monitor: column-wise exact torus model of every noise-free GLWE/GGSW op; random straight-line programs with the model executed alongside",
+         "All 21 public linear GLWE operations (+ GGSW rotate) are executed on random limb vectors over sizes 1..5, ranks 0..3 mixed, radices 1..62, rotations in all of Z, shifts beyond the precision, "
+         "cross-radix normalisation, assign and out-of-place forms, and compared column by column with an exact big-integer model (exactly when nothing is truncated; the phase statement is also "
+         "checked under a random secret); 2-12 step programs are checked after every step. Held on the executions observed.",
+         "Trusted: the exact model in c02.rs / exact.rs.", "DESIGN.md §C02"),
+ "C03": ("exploration", "runtime monitor: exact phase under the target key vs exact plaintext image, hard gadget bound, gadget-shape independence; every Galois element for N <= 64",
+         "Key-switch (GLWE/GGLWE/GGSW/LWE), the eight automorphism forms, trace at every level, packing, LWE<->GLWE conversion and sample extraction are executed with keys of random gadget shape "
+         "(ranks 1..3, dsize 1..4, dnum, three-way radix mismatch) and judged by exact big-integer phases against the exact image of the input; the Galois grid is complete for N in {8,16,32,64}. "
+         "Only a hard bound is used: noise regressions below it are invisible.",
+         "Trusted: the bound derivation from gglwe_product_dft (worst 0.44 of the bound where key noise dominates).", "DESIGN.md §C03"),
+ "C04": ("exploration", "runtime monitor: exact phase vs exact negacyclic product, every GGSW / GGLWE cell decrypted",
+         "External products (GLWE/GGLWE/GGSW x GGSW, into and assign), the three cmux forms, GGSW from GGLWE, GGSW key-switch and automorphism run with random gadget shapes and radix mismatches; results "
+         "are compared with m2 * exact_phase(input) within a hard gadget bound and every cell of every gadget ciphertext produced or used is decrypted exactly; all monomials +-X^k are enumerated for N = 8, 16.",
+         "Trusted: bound derivation (worst passing ratio 0.80).", "DESIGN.md §C04"),
+ "C05": ("exploration", "runtime monitor: exact integer identity phase(res) = P_a P_b 2^(cnv - Wa - Wb) at every convolution offset; bitwise square/accumulate comparisons",
+         "glwe_mul_plain, glwe_mul_const, tensor_apply, square, accumulate, tensor decryption and relinearisation are run at EVERY cnv_offset of the grid (every limb multiple and intra-limb remainders "
+         "1, b/2, b-1) with operands whose top limb is partially used, result radix = and != operand radix, and compared exactly on un-reduced integer phases. Known finding F13c covers the cross-radix "
+         "negative-offset region.",
+         "Trusted: the exact model; deterministic operations, so no statistical tolerance.", "DESIGN.md §C05"),
+ "C06": ("exploration", "runtime statistical monitor: exactly extracted errors and raw masks, two-sided acceptance bands (false-alarm < 2^-40 per run); byte-level seed-separation metamorphics",
+         "Every encryptable object (24 kinds incl. all key material, public, blind-rotation and bootstrapping keys, compressed forms) is encrypted, every cell decrypted exactly, errors pooled per kind "
+         "(>= 2^16 quick / 2^22 thorough coefficients) and tested two-sidedly (variance band, mean, max <= bound, zero fraction), masks tested for range, uniformity, bit balance and lag-1 correlation; "
+         "metamorphic byte comparisons check that the mask depends only on the mask seed and the error seed changes only the body. Statistical: a +-10 % sigma drift is visible at the thorough size.",
+         "Trusted: the variance model (rounding +1/12, truncation at the bound); thresholds documented in c06.rs.", "DESIGN.md §C06"),
+ "C19": ("exploration", "runtime replay monitor: decompressed cells vs regenerated mask / error stream / public standard encryption; cross-backend byte comparison; serialisation round trip",
+         "Every compressed layout is encrypted, decompressed and compared cell by cell with the mask regenerated from the stored seed, the replayed error stream and the public standard encryption of the "
+         "cell's plaintext; the same object is built on a second backend and compared byte for byte; compress -> write -> read -> decompress must give the same object.",
+         "Trusted: the replay order pinned in DESIGN Appendix A; LWE-related compressed keys are expanded GGLWE by GGLWE (their own decompress methods cannot be called: missing trait impls).", "DESIGN.md §C19"),
  "C07": ("exploration", "runtime monitor: exact schoolbook oracle (i128) on DFT-domain pipelines read back through the inverse transform, four backends",
          "Every DFT-domain operation is executed on random shapes (incl. mismatched sizes, offsets past the end, masks, all value classes with aligned extreme digits) at "
          "the largest operand width the backend's exactness predicate admits, and the big-accumulator result is compared bit for bit with the exact negacyclic / "
